@@ -84,6 +84,47 @@ NEEDS = {
  "C16-4": "connection tasks in a JoinSet with panics re-raised in the accept loop: a handler panic takes the listener and all other connections down",
  "C17-3": "wait_for_shutdown() no longer waits for detached handlers (only close() does): Detached mode, client gone, a waiter that is not close()",
  "C17-4": "detached handler task relies on rqctx to keep the wait-group worker alive: handler that gives up its RequestContext early, client gone, shutdown requested",
+ # ---- round 3 (boundaries, encodings, concurrency windows, faults, less obvious files)
+ "C01-5": "range matching on the (major, minor, patch) triple only: a request whose version is a pre-release of a range bound",
+ "C01-6": "router's has_versioned_routes flag overwritten by the last registration: version-restricted endpoints followed by an all-versions one, served without a version policy",
+ "C02-5": "lower range bound compared by numeric triple, overlap check by full precedence: adjacent ranges (..2.0.0, 2.0.0..) both match a request at 2.0.0-rc.1; dispatch depends on registration order",
+ "C02-6": "scalar check looks only at the first alternative of a multi-alternative anyOf: untagged enum String|Vec<String> as a query or path parameter type",
+ "C03-5": "lazy segment decoding; the wildcard arm flattens decode errors away: a dot or non-UTF-8 segment at the second or later captured position",
+ "C03-6": "decoded bytes collected as Latin-1 chars: any decoded byte >= 0x80 (invalid UTF-8 accepted, valid UTF-8 mangled)",
+ "C04-5": "pre-release part of versions compared as plain strings: requests at a pre-release of a range bound get the wrong 404/405/Allow",
+ "C04-6": "Allow values cached per node in a OnceLock without the version: two 405s on one path at versions with different served methods",
+ "C05-5": "max-version check of the header policy on the numeric triple: max_version is a pre-release, header names a later pre-release or the release",
+ "C05-6": "asymmetric overlap arm (FromUntil, From): bounded range first, then an open range that starts earlier",
+ "C06-5": "range matching on the numeric triple: document generated for a pre-release of a range bound",
+ "C06-6": "reference collector does not follow a definition that is itself a bare $ref: response header typed as a newtype over an enum used nowhere else",
+ "C07-5": "tuple extractor metadata ignores the declared content type: non-default content type + Path/Query before TypedBody",
+ "C07-6": "response conversion failure not routed through the endpoint's error type: custom error type + unserialisable success value",
+ "C08-5": "upper length/items limit dropped when equal to the lower one (hi <= lo instead of hi < lo): fixed-size arrays, exact-length strings",
+ "C08-6": "exclusive integer maximum folded to maximum N+1 instead of N-1",
+ "C09-5": "peer addresses queued in accept order, taken in handshake-completion order: overlapping TLS handshakes finishing out of order",
+ "C09-6": "a body read error ends the stream as if complete: connection drops before the declared length / last chunk, prefix is a valid document",
+ "C10-5": "signed integers narrowed with a magnitude check that is one too generous on the positive side: exactly MAX+1",
+ "C10-6": "content type matched by prefix: application/json-patch+json, application/jsonl, application/x-www-form-urlencoded-v2",
+ "C11-5": "byte counting skipped when a small Content-Length is declared: Content-Length followed by Transfer-Encoding: chunked",
+ "C11-6": "running budget reset to cap - previous frame: three or more frames whose adjacent pairs fit the cap",
+ "C12-5": "thread-local JSON scratch buffer not cleared on a serialisation error: failed response, then a good one on the same thread",
+ "C12-6": "override test compares lower-cased explicit names with the raw declared field name: declared header name with capitals + explicit header of the same name",
+ "C13-5": "status range written 400..=600: exactly the code 600",
+ "C13-6": "second and later values of a repeated error header dropped",
+ "C14-5": "token length bound applied to the decoded bytes: well-formed tokens of 516..684 characters",
+ "C14-6": "selector decoded via serde_json::Value: 128-bit fields beyond u64, repeated keys inside page_start",
+ "C15-5": "page-limit clamp rewritten as a wrapped signed difference: client limits >= 2^31 + 10000 come back unclamped (collection > 10000 items)",
+ "C15-6": "tokens encoded with the standard base64 alphabet, decoded URL-safe: a page whose last item's token contains '+' or '/'",
+ "C16-5": "HTTP/2 requests always handled inline: Detached server + HTTP/2 client + stream reset / connection close while the handler runs",
+ "C16-6": "connection tasks in a JoinSet, accept loop breaks on a JoinError: one handler panic on an HTTP/1 connection closes the listener",
+ "C17-5": "waiting for detached handlers moved from the shared join future into close(): Detached mode, client gone, a waiter other than close()",
+ "C17-6": "connections with no service future in flight are dropped when shutdown begins: a response body still being written (slow reader, > socket buffers) is truncated",
+ "C18-5": "acceptor lock held for the whole TLS negotiation: one stalled ClientHello blocks every later TLS handshake",
+ "C18-6": "size accounting skipped when the size hint's lower bound fits the cap: chunked bodies of any size are buffered and accepted",
+ "C19-5": "doc extraction takes only the first contiguous run of #[doc] attributes: doc lines on both sides of another attribute (the #[endpoint] attribute itself inside a trait)",
+ "C19-6": "tuple extractor metadata passes the default content type to the body extractor: non-default content type + Path/Query before TypedBody",
+ "C20-5": "list headers split on ',' only and trimmed on the left only: 'Upgrade , keep-alive' / 'websocket , x' (OWS before the comma)",
+ "C20-6": "hand-written AsyncRead lends hyper the filled part of the ReadBuf and then advances: read_exact-style handlers when a record arrives in more than one segment",
 }
 
 def main():
